@@ -613,10 +613,10 @@ void add(std::vector<Fault> &cat, const std::string &name, std::vector<Rule> adm
 }
 
 void wantImports(GenOptions &g) { g.imports = true; }
-void wantResets(GenOptions &g) { g.resets = true; g.maxVarsPerComponent = 4; }
+void wantResets(GenOptions &g) { g.resets = true; g.maxVarsPerComponent = 4; g.maxComponents = 4; }
 void wantConns(GenOptions &g) { g.connections = true; g.maxComponents = 7; }
 void wantUnits(GenOptions &g) { g.maxUnits = 7; }
-void wantMath(GenOptions &g) { g.mathProbability = 0.9; g.resets = true; }
+void wantMath(GenOptions &g) { g.mathProbability = 0.7; g.resets = true; g.maxComponents = 3; g.maxVarsPerComponent = 3; }
 
 // ---------------------------------------------------------------- catalogue: structure (non-math) faults
 void addIdentifierFaults(std::vector<Fault> &cat)
@@ -916,7 +916,7 @@ void addUniquenessFaults(std::vector<Fault> &cat)
             out.push_back(l);
         }
         return out;
-    });
+    }, [](GenOptions &g) { g.resets = true; g.mathProbability = 0.3; g.imports = true; g.maxComponents = 5; });
     add(cat, "id-syntax", {Rule::XML_ID_ATTRIBUTE}, [](const IrModel &m, Rng &rng) {
         std::vector<Loc> out;
         static const std::vector<std::string> bad = {"1id", "a b", "-x", ".x", "9", "a\tb", "<id>", "x y z"};
@@ -926,7 +926,7 @@ void addUniquenessFaults(std::vector<Fault> &cat)
             out.push_back(irLoc(s.kind, "id of " + s.kind + " := '" + b + "'", [=](IrModel &f) { slot.ref(f) = b; }));
         }
         return out;
-    });
+    }, [](GenOptions &g) { g.resets = true; g.mathProbability = 0.3; g.imports = true; g.maxComponents = 5; });
     // reset orders: unique within the connected variable set of the reset variable
     add(cat, "dup:reset-order", {Rule::RESET_ORDER_UNIQUE}, [](const IrModel &m, Rng &rng) {
         std::vector<Loc> out;
@@ -2241,44 +2241,52 @@ static void runFault(Ctx &ctx, size_t fi)
 {
     Rng &rng = ctx.rng;
     const Fault &f = catalogue()[fi];
-    // base model: the applicable candidate with the most location classes among a few, which must validate cleanly
-    IrModel best;
-    std::vector<Loc> bestLocs;
-    size_t bestClasses = 0;
-    int candidates = 0;
-    for (int tries = 0; tries < 120 && candidates < 6; ++tries) {
+    // base model: among a few applicable candidates, the one with the most location classes that validates cleanly
+    struct Cand
+    {
+        IrModel ir;
+        std::vector<Loc> locs;
+        size_t classes = 0;
+    };
+    std::vector<Cand> cands;
+    for (int tries = 0; tries < 150 && cands.size() < 5; ++tries) {
         GenOptions g;
-        g.maxComponents = rng.range(2, 7);
-        g.mathProbability = 0.5;
+        // validation cost is dominated by the number of <math> elements (MathML DTD re-parsed for each): keep bases lean
+        g.maxComponents = rng.range(2, 6);
+        g.mathProbability = 0.1;
+        g.resets = rng.chance(0.15);
         if (f.tune) {
             f.tune(g);
         }
-        IrModel ir = generateModel(rng, g);
-        stripSharedImportIds(ir); // known false rejection (see acceptance part); keep bases clean
-        auto locs = f.locs(ir, rng);
-        if (locs.empty()) {
+        Cand c;
+        c.ir = generateModel(rng, g);
+        stripSharedImportIds(c.ir); // known false rejection (see acceptance part); keep bases clean
+        c.locs = f.locs(c.ir, rng);
+        if (c.locs.empty()) {
             continue;
         }
         std::set<std::string> cls;
-        for (const auto &l : locs) {
+        for (const auto &l : c.locs) {
             cls.insert(l.cls);
         }
-        ++candidates;
-        if (cls.size() > bestClasses) {
-            // must be a clean base
-            stage("base-validation");
-            ModelPtr api = buildApi(ir);
-            Verdict v = validateMonitored(api, "base model for fault " + f.name + ":\n" + dumpIr(ir));
-            stat("base_validations");
-            if (v.issues != 0) {
-                stat("base_not_clean");
-                --candidates;
-                continue;
-            }
-            best = ir;
-            bestLocs = locs;
-            bestClasses = cls.size();
+        c.classes = cls.size();
+        cands.push_back(std::move(c));
+    }
+    std::stable_sort(cands.begin(), cands.end(), [](const Cand &a, const Cand &b) { return a.classes > b.classes; });
+    IrModel best;
+    std::vector<Loc> bestLocs;
+    for (auto &c : cands) {
+        stage("base-validation");
+        ModelPtr api = buildApi(c.ir);
+        Verdict v = validateMonitored(api, "base model for fault " + f.name + ":\n" + dumpIr(c.ir));
+        stat("base_validations");
+        if (v.issues != 0) {
+            stat("base_not_clean");
+            continue;
         }
+        best = c.ir;
+        bestLocs = c.locs;
+        break;
     }
     if (bestLocs.empty()) {
         stat("fault_case_without_applicable_base");
@@ -2286,7 +2294,7 @@ static void runFault(Ctx &ctx, size_t fi)
         caseInfo("F:none:" + f.name, false, "fault " + f.name + ": no applicable base model found");
         return;
     }
-    size_t maxN = ctx.thorough() ? 14 : 3;
+    size_t maxN = ctx.thorough() ? 8 : 3;
     auto locs = chooseLocs(bestLocs, rng, maxN);
     Outcome o;
     std::string classes;
@@ -2653,8 +2661,8 @@ static Plan makePlan(const std::string &tier)
     p.nPrefix = th ? 150 : 12;
     p.nResolved = th ? 150 : 12;
     p.nCycle = th ? 4 : 2;
-    int reps = th ? 200 : 3;
-    int mathReps = th ? 60 : 3;
+    int reps = th ? 60 : 3;
+    int mathReps = th ? 25 : 3;
     const auto &cat = catalogue();
     for (int r = 0; r < reps; ++r) {
         for (size_t f = 0; f < cat.size(); ++f) {
